@@ -39,6 +39,18 @@ CHECKS = {
         text="~2*10^5 (quick) variant texts: every inter-token gap x comment forms, every string/name x single quotes and each control byte, every container x trailing comma, every literal x case forms, "
              "every number x leading zeros and digit-less exponents, trailing garbage; strict must reject, default must accept with the original value, STRICT|ALLOW_TRAILING_CHARS must report the value end.",
         note="trusted: reference parser for the original document's value; for digit-less exponents on integers only success is required in default mode"),
+    "C02": dict(
+        level="exploration", design="DESIGN.md §3 C02",
+        technique="runtime monitoring: ASan/UBSan build; every serialization (all 64 flag sets) observed at the API and fed to an independent reference parser; in-driver json-c re-parse/equal/re-serialize monitors",
+        text="~16k trees (quick) / 100k (thorough) built through the API x 64 flag sets, plus 5*10^5 / 2*10^6 single doubles under PLAIN/NOZERO: each distinct text must be accepted by the reference "
+             "RFC 8259 parser and denote exactly the tree (ints exact, doubles bit-exact, strings byte-exact, member order), length = strlen; json-c re-parse must be equal and re-serialize to the same bytes.",
+        note="trusted: reference parser (CPython float() for number tokens); NaN/Infinity and custom double formats are outside the statement"),
+    "C10": dict(
+        level="exploration", design="DESIGN.md §3 C10",
+        technique="runtime monitoring: UBSan (float-cast-overflow, signed overflow) + exact-arithmetic reference tables (Python int/Fraction) compared with every getter's value and errno after each construct/set/inc step",
+        text="~2*10^5 (quick) / 4*10^6 (thorough) node histories over all kinds and lattice/random values; 5 getters x every state; saturation, errno and representation switching of int_inc checked exactly; "
+             "any undefined conversion aborts under UBSan and is reported with the command it died in.",
+        note="trusted: reference tables (self-tested), gcc UBSan incl. float-cast-overflow; corners the documentation leaves open are listed in the evidence assumptions and not asserted"),
 }
 
 NOT_YET = {}
